@@ -14,7 +14,9 @@ Oracle  : (P) producible     get_runlog() does not raise            runlog-raise
           (I) ids            item ids pairwise distinct              duplicate-id:<names of the two items' instructions>
           (T) times          end is None or end >= start             ends-before-start
           (C) conclusive     state in completed|failed|cancelled =>  end set, not cancellable, not forcible
-                                                                     conclusive:<state>:<no-end|cancellable|forcible>
+                                                                     conclusive:<state>:<no-end|cancellable|forcible joined by +>
+                                                                     conclusive:booked-on-newer-invocation (an earlier invocation of the
+                                                                     same line is still 'started')
           (F) completed      a method line with a unique payload (Mark, Quick, Set, Flow, Slow, Block, Notify as rendered by
                              the generator; recognised on the TEXT) that the method state reports executed and whose effect
                              the harness observed in the current run (Mark tag assignment, UOD exec+finalize callbacks,
@@ -44,7 +46,8 @@ RULE = ("a case = method lines + schedule (ticks, user commands, injects, edits,
         "of >= 3 instruction kinds including an interrupt (Watch/Alarm) item or a cancelled/failed item. Distinct = distinct case JSON.")
 ASSUMPTIONS = [
     "the run log of 'an execution' is the log of the current interpreter: Start, Stop, Restart and an accepted method edit begin a new log",
-    "a UOD command whose exec function raises (Boom) is part of 'any execution' (the engine handles it as a method error)",
+    "a UOD command whose exec function raises (Boom at once, Slow/OvA/OvB in a later iteration through the scripted 'fault' step) is part "
+    "of 'any execution' (the engine handles it as a method error)",
     "(F) uses the engine's own report 'executed' as the premise 'completed' and the harness' observation of the effect as confirmation; "
     "lines outside the generator's payload grammar (hostile / broken text) carry no (F) expectation",
     "exceptions raised by inject_code, set_method, cancel_instruction, force_instruction themselves are outside the statement (counted)",
@@ -162,12 +165,18 @@ def judge(case, c: D.Campaign, viol, info):
             if end is not None and end < start:
                 viol("ends-before-start", "tick %d: item %r (%s) start %r end %r" % (r.no, name, state, start, end))
             if state in CONCLUSIVE:
-                if end is None:
-                    viol("conclusive:%s:no-end" % state, "tick %d: item %r is %s but has no end time" % (r.no, name, state))
-                if cancellable:
-                    viol("conclusive:%s:cancellable" % state, "tick %d: item %r is %s and still cancellable" % (r.no, name, state))
-                if forcible:
-                    viol("conclusive:%s:forcible" % state, "tick %d: item %r is %s and still forcible" % (r.no, name, state))
+                flaws = [w for w, bad in (("no-end", end is None), ("cancellable", cancellable), ("forcible", forcible)) if bad]
+                if flaws:      # one signature per item state and combination of flaws (one root cause usually sets several)
+                    older = [o for o in items if o[1] == name and o[0] != _id and o[2] == "started" and o[3] < start]
+                    sig = "conclusive:%s:%s" % (state, "+".join(flaws))
+                    if older and "no-end" not in flaws:
+                        # mechanism: an earlier invocation of the same instruction never concluded while this newer one is conclusive
+                        # and goes on - the conclusive state of the earlier invocation was booked on the newer one
+                        sig = "conclusive:booked-on-newer-invocation"
+                    viol(sig, "tick %d: item %r (id ..%s) is %s but %s"
+                         % (r.no, name, _id[-4:], state, ", ".join({"no-end": "has no end time", "cancellable": "is still cancellable",
+                                                                    "forcible": "is still forcible"}[w] for w in flaws)
+                            + ("; an earlier invocation (id ..%s) is still 'started'" % older[0][0][-4:] if older else "")))
         # non-triviality
         kinds = {it[1].split(":")[0] for it in items}
         if len(items) >= 5 and len(kinds) >= 3 and (kinds & {"Watch", "Alarm"} or any(it[2] in ("failed", "cancelled") for it in items)):
@@ -263,7 +272,7 @@ def run_shard(col, cfg):
         classes = ["origin:" + case["mix"]]
         for k in info:
             if k in ("nontrivial", "has-cancelled-item", "has-failed-item", "has-interrupt-item", "has-user-cancelled/forced-item", "runlog-raised",
-                     "tick-raised", "executed-without-observed-effect") or k.startswith("ops:"):
+                     "tick-raised", "executed-without-observed-effect", "reissue-while-running", "fault-in-reissue-tick") or k.startswith("ops:"):
                 classes.append(k)
         if info.get("F-judged"):
             classes.append("F-judged")
